@@ -126,6 +126,14 @@ def run_single(ctx, case):
         project = signac.Project(os.path.basename(root))
         os.chdir(os.path.join(root, "workspace"))
         ctx.count("relative_project_handle_then_chdir")
+    elif len(expected) and int(expected[:2], 16) % 3 == 1:
+        # the process's working directory has been deleted under it (as inside `with job:` after job.remove())
+        import tempfile
+
+        gone = tempfile.mkdtemp(dir=os.path.dirname(root))
+        os.chdir(gone)
+        os.rmdir(gone)
+        ctx.count("working_directory_deleted")
     arg = copy.deepcopy(sp)
     if case.get("byid_first"):
         arg = _tuple_spelling(arg)  # arrays as tuples: their mutable elements are still the caller's objects
@@ -152,7 +160,11 @@ def run_single(ctx, case):
     # 3. init layout
     if case.get("cache"):
         project.update_cache()
-    job.init()
+    try:
+        job.init()
+    except Exception as e:  # noqa
+        ctx.violation("init-raises", f"init() of a valid state point raised {type(e).__name__}: {e}", {"sp": sp})
+        return
     ctx.monitor("init_layout")
     jd = os.path.join(os.path.join(root, "workspace"), expected)
     names = sorted(os.listdir(os.path.join(root, "workspace")))
@@ -239,8 +251,21 @@ def run_single(ctx, case):
     j4 = p2.open_job(copy.deepcopy(sp))
     if j4 not in p2 or j4.id != expected:
         problems.append(("by-statepoint", j4.id))
+    # a new session opens the (initialised) job by state point, the caller then reuses its mapping for something
+    # else: what that session answers for the id afterwards is still sp
+    p5 = sig.fresh(root)
+    arg5 = _tuple_spelling(copy.deepcopy(sp)) if case.get("byid_first") else copy.deepcopy(sp)
+    p5.open_job(arg5)
+    _mutate_nested(arg5)
+    ctx.monitor("alias")
+    j5, e5 = sig.exc_name(p5.open_job, id=expected)
+    if e5 is not None or not model.typed_eq(j5.statepoint(), sp) or not model.typed_eq(dict(j5.cached_statepoint), sp):
+        problems.append(("byid-after-caller-mutation", repr(e5) if e5 is not None else model.plain(j5.statepoint())))
     if problems:
-        ctx.violation("fresh-session-lookup-differs", "a fresh Project does not find the job exactly",
+        key = "fresh-session-lookup-differs"
+        if [p[0] for p in problems] == ["byid-after-caller-mutation"]:
+            key = "handle-aliases-caller-mapping"
+        ctx.violation(key, "a fresh Project does not find the job exactly",
                       {"sp": sp, "problems": problems})
     ctx.distinct("nontrivial", model.canon_text(sp))
     ctx.sample({"single": sp, "id": expected})
